@@ -1,6 +1,8 @@
 /-
 C10 - model of `notation.Verify` (notation.go): argument checks, skip short-circuit,
-reference handling, and the paged / limited / early-exit listing loop with its call log.
+reference handling, the paged / limited / early-exit listing loop with its call log, what the
+repository's `ListSignatures` makes of the callback's request to stop (hands the error back - verbatim
+or with context -, swallows it, replaces it), and the classification of the returned error after the listing.
 -/
 import NotationModel.Basic
 open Lean
@@ -19,17 +21,35 @@ inductive Ref
   | noRef           -- registry/repo (neither tag nor digest)
   deriving DecidableEq, Repr, FromJson, ToJson
 
+/-- what the repository's `ListSignatures` does with the error by which the paging callback asks it to stop
+(the callback's only way to stop the listing: "done", "limit exceeded", "cannot fetch") -/
+inductive ListErr
+  | forward   -- hands it back to the caller: verbatim, or with context added so that `errors.Is` still finds it
+              -- (fmt.Errorf %w, errors.Join, a type with Unwrap / Is ...: field `wrap`)
+  | swallow   -- stops listing and returns nil
+  | replace   -- stops listing and reports the listing as FAILED with an error of its own that does not wrap the callback's
+  deriving DecidableEq, Repr, FromJson, ToJson
+
 structure Input where
   max : Int
   pages : List (List Sig)
   ref : Ref
   skip : Bool               -- the applicable level is skip (verifier implements SkipVerify)
+  listErr : ListErr         -- how the repository answers the callback's request to stop
   refVariant : String       -- how the reference is spelled (concretisation only: digest algorithm of a
                             -- mismatching digest, `tag@digest` form); must not matter beyond `ref`
   flavors : List Nat        -- per listed signature: which error value a failing fetch / verification
                             -- returns (plain, wrapping context.DeadlineExceeded / Canceled, typed ...); must not matter
   sameAs : List Int         -- per listed signature: -1 or the earlier position whose manifest it repeats (a
                             -- listing may name one manifest twice: both entries count); must not matter
+  wrap : Nat                -- which context a forwarding repository adds to the callback's error (0 = none, fmt %w,
+                            -- errors.Join on either side, types with Unwrap() error / Unwrap() []error / Is, two layers),
+                            -- resp. which unrelated error a replacing one returns; must not matter
+  verifier : String         -- which Verifier implementation: the harness's stubs without / with SkipVerify, or the
+                            -- library's REAL verifier (verifier.New / NewWithOptions / NewVerifierWithOptions over a trust
+                            -- policy document and genuine envelopes); must not matter
+  policy : Nat              -- real verifier: shape of the policy document around the applicable statement (wildcard only,
+                            -- scoped statement before / after a wildcard statement of the opposite level, ...); must not matter
   deriving Repr, FromJson, ToJson
 
 structure Obs where
@@ -73,6 +93,35 @@ def errObs (resolved listed : Bool) (log : Log) : Obs :=
   { success := none, skipped := false, resolved := resolved, listed := listed,
     fetched := log.fetched, verified := log.verified, descOk := false }
 
+/-- what `Verify` finds in the error returned by `ListSignatures`, as `errors.Is` classifies it -/
+inductive Ret | nil | done | exceeded | other
+  deriving DecidableEq, Repr
+
+/-- the value `ListSignatures` returns: nil when the callback never asked to stop; otherwise whatever the
+repository makes of the callback's error -/
+def listRet (m : ListErr) : Except Stop Nat → Ret
+  | .ok _ => .nil
+  | .error s =>
+    match m with
+    | .swallow => .nil
+    | .replace => .other
+    | .forward =>
+      match s with
+      | .done _ => .done
+      | .exceeded => .exceeded
+      | .fetchErr _ => .other
+
+/-- the statements after the listing: an error other than the "done" sentinel fails; otherwise the outcome
+is decided by what the callback recorded (`verificationSucceeded`, here: the loop stopped with `done`), NOT
+by the returned error. (`numOfSignatureProcessed == 0` is another failure; it implies "not succeeded".) -/
+def tail (ret : Ret) (r : Except Stop Nat) (log : Log) : Obs :=
+  if ret == .exceeded || ret == .other then errObs true true log
+  else match r with
+    | .error (.done j) =>
+      { success := some j, skipped := false, resolved := true, listed := true,
+        fetched := log.fetched, verified := log.verified, descOk := true }
+    | _ => errObs true true log
+
 def run (i : Input) : Obs :=
   if i.max ≤ 0 then errObs false false {}
   else if i.skip then
@@ -83,10 +132,7 @@ def run (i : Input) : Obs :=
     | .digestMismatch => errObs true false {}
     | _ =>
       match pages i.max.toNat i.pages 0 0 {} with
-      | (.error (.done j), log) =>
-        { success := some j, skipped := false, resolved := true, listed := true,
-          fetched := log.fetched, verified := log.verified, descOk := true }
-      | (_, log) => errObs true true log
+      | (r, log) => tail (listRet i.listErr r) r log
 
 /-! ### specification -/
 
@@ -101,9 +147,11 @@ def limit (i : Input) : Nat := if i.max ≤ 0 then 0 else i.max.toNat
 
 def refOk (r : Ref) : Bool := r == .tag || r == .digestMatch
 
-/-- what the property says the success index must be -/
+/-- what the property says the success index must be. A repository that reports the listing itself as
+failed (an error of its own, unrelated to the callback's) is an error like an unfetchable signature;
+adding context to the callback's error, or swallowing it, changes nothing. -/
 def expected (i : Input) : Option Nat :=
-  if i.max ≤ 0 || i.skip || !refOk i.ref then none
+  if i.max ≤ 0 || i.skip || !refOk i.ref || i.listErr == .replace then none
   else specFind (i.pages.flatten.take (limit i)) 0
 
 def kindAt (i : Input) (k : Nat) : Option Sig := i.pages.flatten[k]?
@@ -119,6 +167,7 @@ def clauses (i : Input) (o : Obs) : Clauses :=
     ("bad_reference_fetches_nothing", refOk i.ref || o.fetched.isEmpty),
     ("verified_are_the_fetchable_fetched",
       o.verified == o.fetched.filter (fun k => kindAt i k != some .unfetchable)),
+    ("failed_listing_is_an_error", i.listErr != .replace || o.success.isNone),
     ("nothing_after_success",
       match o.success with
       | some j => o.fetched.length == j + 1 && o.descOk
